@@ -358,7 +358,7 @@ func checkC06(c *fw.Ctx) {
 					ok = true
 				}
 			}
-			c.Check(ok, "4 version-columns", spec+" dispatches to "+field, c.P.Pos(w.Pos()), "", "the wrapper does not call the table field")
+			c.Expect(ok, "4 version-columns", spec+" dispatches to "+field, c.P.Pos(w.Pos()), "", "no call of the table field was recognised in the wrapper")
 		}
 	}
 	// the extractor reads the right key and returns the domain of the named user
@@ -374,7 +374,7 @@ func checkC06(c *fw.Ctx) {
 					okRet = true
 				}
 			}
-			c.Check(okRet, "4 version-columns", short+" returns the server part of the user id", c.P.Pos(ex.Pos()), "", "no return of SplitID('@', value)#1")
+			c.Expect(okRet, "4 version-columns", short+" returns the server part of the user id", c.P.Pos(ex.Pos()), "", "no return of SplitID('@', value)#1 was recognised")
 		} else {
 			c.Undecided("4 version-columns", "extractor "+short, "not found")
 		}
